@@ -523,6 +523,7 @@ func runC19(c *core.Ctx) {
 
 	c19Labels(c)
 	c19Filters(c)
+	c19BigFilters(c)
 }
 
 // c19Labels checks that labels differing only in whitespace runs or letter case normalise identically.
@@ -790,4 +791,110 @@ func replayC19(c *core.Ctx, v *core.Violation) (bool, string) {
 		}
 	}
 	return false, "re-run the check with the recorded seed"
+}
+
+// c19BigFilters: filters that hold many elements. Thousands of *fresh* keys are added one by one to a filter and to the
+// children of an Extend chain; after every Add the key must be contained at once, a key that was never added must not be,
+// and at every boundary size (both sides of the powers of two and of 100, 1000, 10000) every filter of the chain must agree
+// with its set model on every key added so far to any of them. Implementations that switch representation, grow or rehash
+// at some element count are exercised on both sides of the switch, with the key that triggers it being new.
+func c19BigFilters(c *core.Ctx) {
+	r := c.Rng
+	runs := c.PerShard(c.N(48, 1600))
+	maxKeys := c.N(5000, 70000)
+	boundary := map[int]bool{}
+	for _, b := range wl.BoundarySizes {
+		boundary[b] = true
+	}
+	for _, b := range []int{511, 512, 513, 514, 1023, 1024, 1025, 1026, 2047, 2048, 2049, 2050, 4095, 4096, 4097, 4098, 8191, 8192, 8193, 16383, 16384, 16385, 32767, 32768, 32769, 65535, 65536, 65537} {
+		boundary[b] = true
+	}
+	for run := 0; run < runs; run++ {
+		n := maxKeys
+		if run%4 != 0 {
+			n = 600 + r.Intn(maxKeys/4)
+		}
+		style := r.Intn(4)
+		mkKey := func(i int) []byte {
+			switch style {
+			case 0:
+				return []byte(fmt.Sprintf("x%d", i))
+			case 1:
+				return []byte(fmt.Sprintf("data-%x-%c", i*2654435761, 'a'+byte(i%26)))
+			case 2:
+				b := make([]byte, 1+r.Intn(9))
+				for j := range b {
+					b[j] = byte(r.Intn(256))
+				}
+				return append(b, []byte(fmt.Sprint(i))...)
+			}
+			return []byte(fmt.Sprintf("%d%s", i, strings.Repeat("k", i%7)))
+		}
+		filters := []util.BytesFilter{util.NewBytesFilter()}
+		models := []map[string]bool{{}}
+		var all [][]byte
+		cur := 0
+		var d string
+		total := 0
+		pv, st := core.Try(func() {
+			for i := 0; i < n && d == ""; i++ {
+				k := mkKey(i)
+				if i > 0 && r.Intn(50) == 0 {
+					k = all[r.Intn(len(all))] // now and then a key that is already known
+				}
+				absent := append([]byte("absent-"), k...)
+				if i > 0 && r.Intn(200) == 0 && len(filters) < 6 {
+					// continue in a child: the parent keeps its set
+					nm := map[string]bool{}
+					for kk := range models[cur] {
+						nm[kk] = true
+					}
+					nm[string(k)] = true
+					var nf util.BytesFilter
+					if r.Intn(2) == 0 || bytes.ContainsAny(k, ",") || len(k) == 0 {
+						nf = filters[cur].Extend(k)
+					} else {
+						nf = filters[cur].ExtendString(string(k))
+					}
+					filters = append(filters, nf)
+					models = append(models, nm)
+					cur = len(filters) - 1
+				} else {
+					filters[cur].Add(k)
+					models[cur][string(k)] = true
+				}
+				all = append(all, k)
+				total++
+				if !filters[cur].Contains(k) {
+					d = fmt.Sprintf("element %d: filter#%d.Contains(%q) = false immediately after it was added (the filter holds %d elements)", i, cur, k, len(models[cur]))
+					return
+				}
+				if !models[cur][string(absent)] && filters[cur].Contains(absent) {
+					d = fmt.Sprintf("element %d: filter#%d contains %q, which was never added", i, cur, absent)
+					return
+				}
+				if boundary[len(models[cur])] || i == n-1 {
+					for fi, f := range filters {
+						for _, kk := range all {
+							if g, w := f.Contains(kk), models[fi][string(kk)]; g != w {
+								d = fmt.Sprintf("after %d additions (filter#%d of the chain holds %d elements): filter#%d.Contains(%q) = %v, set model %v", i+1, cur, len(models[cur]), fi, kk, g, w)
+								return
+							}
+						}
+					}
+					c.Count("big_filter_full_membership_sweeps", 1)
+				}
+			}
+		})
+		if pv != nil {
+			d = fmt.Sprintf("panic: %v\n%s", pv, trimStack(st))
+		}
+		c.Evals(total)
+		c.Count("law_BytesFilter", 1)
+		c.Count("big_filter_runs", 1)
+		c.Max("big_filter_max_elements", int64(len(models[cur])))
+		if d != "" {
+			c.Violation(&core.Violation{Class: "law-BytesFilter", Locus: "many-elements", Script: map[string]any{"run": run, "key_style": style, "elements": n}, Detail: d})
+		}
+	}
 }
